@@ -292,7 +292,8 @@ def topLoop (std : Stdlib) (cfg : ParseCfg) : Nat â†’ List Data â†’ List Char â†
     match trimLeft r1 with
     | [] => .ok (acc ++ [v])
     | c :: r2 =>
-      if c == ',' then topLoop std cfg fu (acc ++ [v]) r2
+      -- IgnoreCommas: commas build no arrays, nothing may follow a complete value
+      if c == ',' && !cfg.ignoreCommas then topLoop std cfg fu (acc ++ [v]) r2
       else raiseRaw .other
 
 /-- parse.ValueWithConfig -/
